@@ -32,6 +32,7 @@ def handle (st : DState) (j : Json) : DState × Json :=
   | .str "partition" => (st, partitionOp j)
   | .str "defaults_history" => (st, defaultsHistoryOp j)
   | .str "ansatz_calls" => (st, ansatzCallsOp j)
+  | .str "oniom_distribute" => (st, oniomDistributeOp j)
   | .str "pad1" => (st, pad1Op j)
   | .str "spinsum1" => (st, spinSum1Op j)
   | .str "iqpe" => (st, iqpeOp j)
